@@ -591,6 +591,22 @@ class Run(object):
         prev = self.covers.get(name, False)
         self.covers[name] = prev or ok
 
+    def _escaped(self, ctx, what):
+        """An exception left the harness on this path.  Branch feasibility is decided with a short solver budget and `unknown` counts as
+        feasible (sound: more paths), so under load a path can be entered whose condition is in fact unsatisfiable; code run there may
+        raise what no real execution raises.  Before this is reported as a checker error the path condition goes through the full
+        portfolio: unsat = the path does not exist (dropped), sat = a real escape (error), unknown = undecided."""
+        try:
+            r = _solve(list(ctx.pc))
+        except Exception:
+            r = {'status': 'unknown'}
+        if r['status'] == 'unsat':
+            self.aborted += 1
+        elif r['status'] == 'sat':
+            self.errors.append(what)
+        else:
+            self.undecided.append('an exception escaped on a path whose feasibility is undecided: %s' % what[-300:])
+
     def explore(self):
         global _cur
         from .interp import PyExc
@@ -620,11 +636,11 @@ class Run(object):
             except Undecided as e:
                 self.undecided.append(str(e))
             except PyExc as e:
-                self.errors.append('uncaught Python exception escaped harness: %s' % (e,))
+                self._escaped(ctx, 'uncaught Python exception escaped harness: %s' % (e,))
             except RecursionError:
                 self.undecided.append('interpreter recursion limit')
             except Exception:
-                self.errors.append(traceback.format_exc())
+                self._escaped(ctx, traceback.format_exc())
             finally:
                 _cur = None
         self.wall = time.time() - t0
